@@ -326,6 +326,16 @@ op('shift:pos', lambda rng, D, P, t: [U(rand_coeffs(rng, (D, P) + _shape(rng, t)
    lambda a: a[0].shift(a[1]), None, tags=('shape',))
 
 
+def _gen_cplx(rng, D, P, tier):
+    s = _shape(rng, tier)
+    return [U(rand_coeffs(rng, (D, P) + s, -2, 2) + 1j * rand_coeffs(rng, (D, P) + s, -2, 2))]
+
+
+op('real', _gen_cplx, lambda a: algopy.real(a[0]), lambda z: np.real(z[0]), tags=('shape',))
+op('imag', _gen_cplx, lambda a: algopy.imag(a[0]), lambda z: np.imag(z[0]), tags=('shape',))
+op('conjugate', _gen_cplx, lambda a: algopy.conjugate(a[0]), lambda z: np.conjugate(z[0]), tags=('shape',))
+
+
 def _gen_fft_axis(rng, D, P, tier):
     s = tuple(rng.randint(1, 4) for _ in range(rng.randint(1, 3)))
     return [U(rand_coeffs(rng, (D, P) + s, -2, 2)), Kp(rng.randint(-len(s), len(s) - 1))]
